@@ -170,6 +170,13 @@ func famC07(c *hx.Ctx) []*scenario {
 			}
 			add(&scenario{name: name, mode: m, steps: steps})
 		}
+		// liveness probe: whatever state the script left the connection in, a further QoS 1 publish, a QoS 2 exchange and a
+		// subscription must still be answered (a stuck acker or processor shows as a missing response at quiescence)
+		if c.Thorough() || len(sc) == depth {
+			probe := append(append([]step(nil), steps...), in(pub(9, 1, false)), in(pub(8, 2, false)), in(&packet.Pubrel{ID: 8}),
+				in(&packet.Subscribe{ID: 10, Subscriptions: []packet.Subscription{{Topic: "probe", QOS: 1}}}))
+			add(&scenario{name: name + ".probe", steps: probe})
+		}
 		// the connection fails at the k-th packet the broker sends (first connection and after the first resume)
 		if (!c.Thorough() && si%3 == 0) || (c.Thorough() && (len(sc) <= 3 || si%7 == 0)) {
 			for k := 2; k <= 2+len(sc); k++ {
